@@ -89,7 +89,7 @@ def run(res):
     vh, exe = P.base(res, PROP)
     rng = random.Random(res.seed)
     cases = []
-    for _ in range(500 if res.tier == "quick" else 8000):
+    for _ in range(500 if res.tier == "quick" else 40000):
         lines, code, defs, used = gen_case(rng)
         cases.append(("\n".join(lines) + "\n", ("OK", code), "reference"))
         for (idx, kind, name) in defs:
